@@ -38,6 +38,10 @@ def generate(R, tier):
         if i % 40 == 0:
             for pos in range(len(msg)):
                 yield {"stream": "truncation", "payload": msg[:pos].hex()}
+        if i % 200 == 0:
+            # whatever follows the blank line is not looked at - however much of it there is
+            big, expect2 = H.render(R, direction, minor, hs, bytes(R.randrange(256) for _ in range(64)) * R.choice([260, 340, 1000]))
+            yield {"stream": "valid-big-body", "payload": big.hex(), "expect": [direction, minor, expect2]}
     for ver in (b"HTTP/2.0", b"HTTP/0.9", b"HTTP/3.1", b"HTTP/1.", b"HTTP/1.12", b"HTTP/11", b"http/1.1", b"HTTP/1.a", b"HTTP/1,1", b"HTTP/1.1x", b"xHTTP/1.1",
                 b"HTTP/2", b"HTTP/1.0", b"HTTP/1.9", b"HTTPS/1.1", b"HTTP/ 1.1", b"HTTP/1.1\x0b", b"HTTP/9.9", b"HTTP/0.0", b"ICY", b"HTTP/1.\xb2"):
         for eol in (b"\r\n", b"\n"):
@@ -87,8 +91,10 @@ def impl_init():
     def via_packet(raw):
         """The same payload inside a TCP segment as sniffed (dissected from bytes; to / from a port Scapy has a protocol layer for)."""
         port = PORTS[len(raw) % len(PORTS)]
-        l3 = SIP() if len(raw) % 2 else SIP6()
-        seg = l3 / (STCP(sport=40000, dport=port, flags="PA") if len(raw) % 4 < 2 else STCP(sport=port, dport=40000, flags="PA")) / SRaw(raw)
+        # the carrier may be any segment with data: the HTTP signature of a packet is that of its payload, whatever the TCP flags or IP fragment bits say
+        fl = ["PA", "PA", "A", "P", "FA", "S", "SF", "FPA", "R", ""][len(raw) % 10]
+        l3 = (SIP(flags="MF") if len(raw) % 7 == 0 else SIP()) if len(raw) % 2 else SIP6()
+        seg = l3 / (STCP(sport=40000, dport=port, flags=fl) if len(raw) % 4 < 2 else STCP(sport=port, dport=40000, flags=fl)) / SRaw(raw)
         pkt = l3.__class__(bytes(seg))
         out = []
         for name, f in (("HTTP.from_packet", lambda: HTTP.from_packet(pkt)), ("HTTPPacketSignature.from_packet", lambda: HTTPPacketSignature.from_packet(parse_packet(pkt)))):
